@@ -373,6 +373,10 @@ def rnd_splits(rng, stream: bytes, units, T, mode):
 # --------------------------------------------------------------------------------------
 
 
+from common.py2lean_specs import with_translation  # noqa: E402
+
+
+@with_translation
 class C12(Property):
     id = "C12"
     title = "Terminal queries report what the terminal said, whatever the timing"
